@@ -1135,7 +1135,7 @@ def gen_specs(rng, thorough):
                 n = rng.randint(2, N)
                 specs.append(mk(n, N, es))
     # (B) every graph family up to 10 vertices, machines larger than the circuit
-    for i in range(cnt(6000 if thorough else 150)):
+    for i in range(cnt(4000 if thorough else 150)):
         N = rng.randint(3, 10)
         n = rng.randint(2, min(N, 8))
         fam = FAMILIES[i % len(FAMILIES)]
@@ -1144,7 +1144,7 @@ def gen_specs(rng, thorough):
         specs.append(s)
     # (C) operations on 4 and 5 qudits on sparse machines (where four or five qudits are rarely
     # connected): wide gates, entangling blocks at unsorted locations, partitioned blocks
-    for i in range(cnt(2500 if thorough else 70)):
+    for i in range(cnt(1500 if thorough else 70)):
         N = rng.randint(4, 9)
         n = rng.randint(4, min(N, 7))
         fam = SPARSE[i % len(SPARSE)]
@@ -1158,7 +1158,7 @@ def gen_specs(rng, thorough):
         specs.append(s)
     # (D) long circuits (many more than 5*n swaps in total) on tree-like machines; every
     # parameter, decay_reset_on_gate False as often as True
-    for i in range(cnt(1200 if thorough else 36)):
+    for i in range(cnt(600 if thorough else 36)):
         n = rng.randint(3, 6)
         N = rng.randint(n, 8)
         fam = ['tree', 'path', 'star', 'caterpillar', 'tree', 'ring'][i % 6]
@@ -1171,7 +1171,7 @@ def gen_specs(rng, thorough):
         specs.append(s)
     # (E) adversarial heuristic: the score of a candidate swap is replaced by a seeded random
     # number (see adversarial_heuristic): backtracking + uphill swaps in small cases
-    for i in range(cnt(1500 if thorough else 50)):
+    for i in range(cnt(1000 if thorough else 50)):
         n = rng.randint(3, 6)
         N = rng.randint(n, 8)
         fam = SPARSE[i % len(SPARSE)]
@@ -1209,7 +1209,7 @@ def gen_specs(rng, thorough):
                            rng.choice([20, 5]), rng.choice([0.5, 1.0, 0.25])]
         specs.append(s2)
     # (G) permutation-aware mapping, fabricated exact permutation data
-    for i in range(cnt(1500 if thorough else 60)):
+    for i in range(cnt(1000 if thorough else 60)):
         N = rng.randint(3, 7)
         n = rng.randint(2, min(N, 5))
         s = mk(n, N, random_connected_graph(rng, N), nops=rng.randint(3, 14),
